@@ -206,8 +206,22 @@ def run_trace(job):
                         break
                 el = s.now - t_start
                 # earlier steps may have consumed up to 1 s of the running timer (close sequences poll in 0.2 s steps)
-                slack = 0.5 if instant else 1e-6      # threads held back by wake_lag act up to a few 0.02 s after the deadline
+                # threads held back by wake_lag act up to a few 0.02 s after the deadline; line-level tracing costs virtual time per line
+                slack = 0.5 if instant else (0.05 if any(i_["k"] == "S1F14AtT3" for i_ in inputs) else 1e-6)
                 dtc = "T3" if t3 - 1.0 <= el <= t3 + slack else ("D" if D - 1.0 <= el <= D + slack else f"{el:.3f}")
+            elif k == "S1F14AtT3":
+                if h.communication_state.current.name != "WAIT_CRA" or fact["link"] != "up" or last13[0] is None:
+                    continue
+                nd = s.next_deadline()
+                if nd is None or nd - s.now > 1e5:
+                    continue
+                # the answer reaches the handler at the moment the reply timer of the attempt fires
+                s.block(("timer",), max(0.0, nd - s.now - inp.get("eps_us", 0) * 1e-6))
+                inbound = last13[0]
+                ep.link.feed(link.hsms_frame(stype=0, system=inbound, session=0, stream=1, function=14, wbit=False,
+                                             body=s1f14_body(inp["ack"], peer_is_host)))
+                s.run_until(lambda: False, max_dt=1.0)
+                dtc = "T3"
             elif k == "S1F14" and arm["sys"] is not None:
                 # already sent by the instant peer during the previous step
                 if fact["link"] != "up":
@@ -258,8 +272,11 @@ def run_trace(job):
                                  "t": round(s.now, 3)})
         rec["handler_errors"] = ep.link.handler_errors[:3]
 
+    import secsgem.common.state_machine as smm
     import secsgem.gem
-    s = simrt.run(main, seed=seed, policy=policy, switch_prob=0.3, max_vtime=1e7, wall_timeout=120,
+    race = any(i_["k"] == "S1F14AtT3" for i_ in inputs)
+    s = simrt.run(main, seed=seed, policy=policy, switch_prob=0.5 if race else 0.3, max_vtime=1e7, wall_timeout=120,
+                  line_funcs=[smm.StateMachine._perform_transition, smm.State.enter, smm.State.leave] if race else (), line_cost=1e-5 if race else 1e-4,
                   line_lag=((secsgem.gem.GemHandler.enable,), 1.0, 0.05),
                   wake_lag=(("Timer", "secsgem", "Thread"), 0.3, 0.02) if instant else None)
     rec["outcome"] = s.outcome
@@ -278,6 +295,15 @@ def run(ctx: Ctx):
     res = tlc.run("E30Comm", cfg_text=cfg, workdir=wd, workers=1, what="gen", timeout=600)
     tlc.require_ok(res, "E30Comm")
     ctx.add_tlc(res, "E30 establish-communications monitor: all histories, invariants + RetryAfterDelay")
+    gcfg = "SPECIFICATION Spec\nCONSTANTS Atomic = {}\nINVARIANT SerialOutcome\nINVARIANT ReportedMeansEstablished\nPROPERTY Terminates\n"
+    ga = tlc.run("GemCommImpl", cfg_text=gcfg.format("TRUE"), workdir=wd, workers=1, what="commimpl_serialised", timeout=300, deadlock=False)
+    tlc.require_ok(ga, "GemCommImpl (serialised transitions)")
+    ctx.add_tlc(ga, "communication state machine in WAIT_CRA, S1F14 vs T3 expiry with serialised transitions: only the two serial outcomes")
+    gw = tlc.run("GemCommImpl", cfg_text=gcfg.format("FALSE"), workdir=wd, workers=1, what="commimpl_as_coded", timeout=300, deadlock=False, expect_error=True)
+    ctx.add_tlc(gw, "witness of known finding C07-t3-expiry-races-s1f14: transitions as coded (no mutual exclusion) -> established reported, state WAIT_DELAY")
+    ctx.extra["model_unserialised_transitions_break_serial_outcome"] = gw.error_kind == "invariant"
+    if gw.error_kind != "invariant":
+        raise Machinery(f"GemCommImpl witness no longer fails ({gw.error_kind})")
     edges = res.tagged("TR")
     g = graph.Graph(edges, inits=[{"cm": "DISABLED", "link": "down", "en": False, "deny": d} for d in (False, True)])
     if len(edges) < 30:
@@ -303,7 +329,22 @@ def run(ctx: Ctx):
                 for pol in ("random", "pct", "random", "fifo"):
                     tid += 1
                     jobs.append((tid, role, mode, hist, rng.randrange(1 << 30), pol, True))
+    # the accepting S1F14 handled while the T3 timer of the same attempt expires, with line-level preemption inside the state machine
+    for role in ("host", "equipment"):
+        for k_ in range(30 if ctx.quick else 200):
+            tid += 1
+            hist = [{"k": "Enable"}, {"k": "LinkUp"}, {"k": "S1F14AtT3", "ack": 0, "eps_us": [0, 50, 200][k_ % 3]}, {"k": "Other", "w": True}, {"k": "Timer"}]
+            jobs.append((tid, role, "passive", hist, rng.randrange(1 << 30), "random", False))
     traces = pmap(run_trace, jobs)
+    for t in traces:
+        # a timer thread whose transition request is refused after the race of the two transitions (the state changed under it): a
+        # consequence of the unserialised transitions, reported with the race's signature; the run itself is judged as usual
+        if t["outcome"] == "done" and t.get("errors") and any(st["inp"]["k"] == "S1F14AtT3" for st in t["steps"]) \
+                and all(e[0] == "Timer" and "WrongSourceStateError" in str(e[1]) for e in t["errors"]):
+            ctx.violation({"check": "e30comm", "clause": "timer-thread-died-in-a-refused-transition", "input": "S1F14AtT3", "role": t["role"],
+                           "race_signature": "timer-transition-refused-after-the-race", "errors": t["errors"],
+                           "what": f"{t['role']}: S1F14 handled while T3 expires: the timer thread's transition was refused afterwards {t['errors'][:1]}"})
+            t["errors"] = None
     for t in [t for t in traces if t["outcome"] != "done" or t.get("errors")][:3]:
         if "Machinery" in str(t.get("errors")):
             raise Machinery(str(t["errors"]))
@@ -337,7 +378,12 @@ def run(ctx: Ctx):
         if v["clause"] != "ok":
             st = t["steps"][v["at"] - 1]
             prev = t["steps"][v["at"] - 2]["obs"]["cm"] if v["at"] > 1 else "DISABLED"
-            ctx.violation({"check": "e30comm", "clause": v["clause"], "input": st["inp"]["k"], "ack": st["inp"].get("ack"),
+            sig = "-"
+            if st["inp"]["k"] == "S1F14AtT3" and st["obs"]["cm"] == "WAIT_DELAY" and st["obs"]["comm"] == 1:
+                sig = "established-event-fired-but-state-WAIT_DELAY"
+            elif any(x["inp"]["k"] == "S1F14AtT3" and x["obs"]["cm"] == "WAIT_DELAY" and x["obs"]["comm"] == 1 for x in t["steps"][: v["at"]]):
+                sig = "after-established-event-fired-but-state-WAIT_DELAY"
+            ctx.violation({"check": "e30comm", "clause": v["clause"], "input": st["inp"]["k"], "ack": st["inp"].get("ack"), "race_signature": sig,
                            "state_before": prev, "role": t["role"], "mode": t["mode"], "application_denies": bool(t.get("deny")), "observed": st["obs"],
                            "allowed": v["allowed"], "inputs": [s["inp"] for s in t["steps"][: v["at"]]],
                            "sched": [t["seed"], t["policy"]],
